@@ -378,32 +378,54 @@ def _kspace_oracles(ctx, deep):
 
     out, runs = [], 0
     rng = ctx.rng
-    for _ in range(ctx.n(40, 400)):
+    for _ in range(ctx.n(60, 600) * (3 if deep else 1)):
         h, w = rng.randint(2, 9), rng.randint(2, 9)
         coils = rng.randint(1, 3)
+        three = rng.random() < 0.3
+        nz = rng.randint(1, 3)
         g = torch.Generator().manual_seed(rng.randrange(1 << 30))
-        k = torch.randn(coils, h, w, 2, generator=g)
+        k = torch.randn(*((coils, nz, h, w, 2) if three else (coils, h, w, 2)), generator=g)
         centered = rng.random() < 0.7
         fwd = functools.partial(T.fft2, centered=centered)
         bwd = functools.partial(T.ifft2, centered=centered)
+        dim = (2, 3) if three else (1, 2)
         runs += 1
         try:
-            H, W = h + rng.randint(0, 3), w + rng.randint(0, 3)
-            s = M.PadKspace((H, W), forward_operator=fwd, backward_operator=bwd)({"kspace": k.clone()})
-            img = bwd(s["kspace"], dim=(1, 2))
-            want = T.view_as_real(T.pad_tensor(T.view_as_complex(bwd(k, dim=(1, 2))), (H, W)))
+            # pad targets: larger, equal or smaller than the data on each axis (pad_tensor only pads where larger)
+            H, W = max(1, h + rng.randint(-2, 3)), max(1, w + rng.randint(-2, 3))
+            tgt = (H, W) if not three or rng.random() < 0.5 else (max(1, nz + rng.randint(-1, 2)), H, W)
+            s = M.PadKspace(tgt, forward_operator=fwd, backward_operator=bwd)({"kspace": k.clone()})
+            img = bwd(s["kspace"], dim=dim)
+            want = T.view_as_real(T.pad_tensor(T.view_as_complex(bwd(k, dim=dim)), tgt))
             if img.shape != want.shape or not torch.allclose(img, want, atol=1e-4):
-                out.append(Violation("padkspace-is-image-pad", "backward(PadKspace(k)) != pad(backward(k)) for %dx%d -> %dx%d" % (h, w, H, W), {"shape": [coils, h, w], "target": [H, W], "centered": centered, "max_abs_err": float((img - want).abs().max()) if img.shape == want.shape else None}, {"fn": "PadKspace"}))
-            # and cropping back returns the original k-space
-            c = M.CropKspace((h, w), forward_operator=fwd, backward_operator=bwd, image_space_center_crop=True)({"kspace": s["kspace"].clone()})
-            if c["kspace"].shape != k.shape or not torch.allclose(c["kspace"], k, atol=1e-4):
-                out.append(Violation("crop-after-pad-kspace", "CropKspace(PadKspace(k)) != k for %dx%d via %dx%d" % (h, w, H, W), {"shape": [coils, h, w], "target": [H, W], "centered": centered}, {"fn": "CropKspace", "odd_diff": bool((H - h) % 2 or (W - w) % 2)}))
+                out.append(Violation("padkspace-is-image-pad", "backward(PadKspace(k)) != pad(backward(k)) for k-space %s -> pad shape %s" % (list(k.shape[:-1]), list(tgt)), {"shape": list(k.shape), "target": list(tgt), "centered": centered, "observed_shape": list(img.shape), "expected_shape": list(want.shape)}, {"fn": "PadKspace", "mixed": any(a < b for a, b in zip(tgt[-2:], (h, w)))}))
+            if not three and H >= h and W >= w:
+                # and cropping back returns the original k-space
+                c = M.CropKspace((h, w), forward_operator=fwd, backward_operator=bwd, image_space_center_crop=True)({"kspace": s["kspace"].clone()})
+                if c["kspace"].shape != k.shape or not torch.allclose(c["kspace"], k, atol=1e-4):
+                    out.append(Violation("crop-after-pad-kspace", "CropKspace(PadKspace(k)) != k for %dx%d via %dx%d" % (h, w, H, W), {"shape": list(k.shape), "target": [H, W], "centered": centered}, {"fn": "CropKspace", "odd_diff": bool((H - h) % 2 or (W - w) % 2)}))
             mh, mw = rng.randint(1, h), rng.randint(1, w)
             c2 = M.CropKspace((mh, mw), forward_operator=fwd, backward_operator=bwd, image_space_center_crop=True)({"kspace": k.clone()})
-            img2 = bwd(c2["kspace"], dim=(1, 2))
-            want2 = T.complex_center_crop(bwd(k, dim=(1, 2)), (mh, mw))
+            img2 = bwd(c2["kspace"], dim=dim)
+            want2 = T.complex_center_crop(bwd(k, dim=dim), ((nz, mh, mw) if three else (mh, mw)))
             if img2.shape != want2.shape or not torch.allclose(img2, want2, atol=1e-4):
-                out.append(Violation("cropkspace-is-image-crop", "backward(CropKspace(k)) != crop(backward(k))", {"shape": [coils, h, w], "crop": [mh, mw], "centered": centered}, {"fn": "CropKspace"}))
+                out.append(Violation("cropkspace-is-image-crop", "backward(CropKspace(k)) != crop(backward(k)) for k-space %s, crop (%d, %d)" % (list(k.shape[:-1]), mh, mw), {"shape": list(k.shape), "crop": [mh, mw], "centered": centered}, {"fn": "CropKspace"}))
+            # seeded random crop: the same file name gives the same window, and the window is a window of the image
+            c3 = M.CropKspace((mh, mw), forward_operator=fwd, backward_operator=bwd, image_space_center_crop=False, random_crop_sampler_type="uniform")
+            a1 = c3({"kspace": k.clone(), "filename": "file_a"})["kspace"]
+            a2 = c3({"kspace": k.clone(), "filename": "file_a"})["kspace"]
+            if a1.shape != a2.shape or not torch.equal(a1, a2):
+                out.append(Violation("random-crop-seeded", "CropKspace random crop differs between two calls with the same file name", {"shape": list(k.shape), "crop": [mh, mw]}, {"fn": "CropKspace-random"}))
+            im3 = bwd(a1, dim=dim)
+            full = bwd(k, dim=dim)
+            found = False
+            for oy in range(h - mh + 1):
+                for ox in range(w - mw + 1):
+                    win = full[..., oy : oy + mh, ox : ox + mw, :]
+                    if win.shape == im3.shape and torch.allclose(win, im3, atol=1e-4):
+                        found = True
+            if not found:
+                out.append(Violation("random-crop-window", "CropKspace random crop is not a window of the back-projected image", {"shape": list(k.shape), "crop": [mh, mw]}, {"fn": "CropKspace-random"}))
         except Exception as e:  # noqa
-            out.append(Violation("kspace-crop-pad-raises", "CropKspace/PadKspace raises %s: %s" % (type(e).__name__, str(e)[:100]), {"shape": [coils, h, w]}, {"fn": "kspace", "raises": type(e).__name__}))
+            out.append(Violation("kspace-crop-pad-raises", "CropKspace/PadKspace raises %s: %s" % (type(e).__name__, str(e)[:100]), {"shape": list(k.shape)}, {"fn": "kspace", "raises": type(e).__name__}))
     return out, runs
